@@ -26,7 +26,7 @@ ASSUMPTIONS = [
     "generated contracts avoid the constructs of the listed known findings (constant-first GroupSize/GroupIndex "
     "comparisons, TypeEnum/OnCompletion/ApplicationID checks) so that every miss is attributable to the group logic",
 ]
-DECIDING_COUNTERS = ["configurations", "vulnerable_by_oracle", "degenerate_comparisons", "cross_reads_configs"]
+DECIDING_COUNTERS = ["configurations", "vulnerable_by_oracle", "degenerate_comparisons", "cross_reads_configs", "cleared_by_statement_checks"]
 BATCH_TIMEOUT = {"quick": 900, "thorough": 3000}
 GROUP_DETECTORS = ["rekey-to", "can-close-account", "can-close-asset", "missing-fee-check",
                    "is-updatable", "is-deletable", "unprotected-updatable", "unprotected-deletable"]
@@ -48,7 +48,78 @@ def plan(tier, seed, scale=1.0):
     return [{"batch": b, "n": per, "seed": seed, "tier": tier} for b in range(nb)]
 
 
+GUARDS = {
+    "rekey-to": [("RekeyTo",), ("global", "ZeroAddress"), ("==",)],
+    "can-close-account": [("CloseRemainderTo",), ("global", "ZeroAddress"), ("==",)],
+    "can-close-asset": [("AssetCloseTo",), ("global", "ZeroAddress"), ("==",)],
+    "missing-fee-check": [("Fee",), ("int", 2000), ("<=",)],
+}
+
+
+def guard_prefix(rng, access, dets):
+    """Unconditional asserts, at the very start of a contract, that the member reached through `access`
+    (('rel', k) | ('abs', i)) has the safe value for each detector in dets."""
+    out = []
+    for d in dets:
+        field, const, op = GUARDS[d]
+        if access[0] == "abs":
+            rd = [("gtxn", access[1], field[0])] if rng.random() < 0.5 else [("int", access[1]), ("gtxns", field[0])]
+        else:
+            k = access[1]
+            if k > 0:
+                rd = rng.choice([[("txn", "GroupIndex"), ("int", k), ("+",)], [("int", k), ("txn", "GroupIndex"), ("+",)]]) + [("gtxns", field[0])]
+            else:
+                rd = [("txn", "GroupIndex"), ("int", -k), ("-",), ("gtxns", field[0])]
+        out += rd + [const, op, ("assert",)]
+    return out
+
+
+def gen_guarded_config(rng):
+    """Two transactions: A's contract starts with unconditional checks on the member at an offset / absolute index;
+    B is configured either exactly there (must be cleared, by the statement) or somewhere else (oracle decides)."""
+    dets = rng.sample(list(GUARDS), rng.randint(1, 3))
+    if rng.random() < 0.25:
+        # a logic-sig that validates ITS OWN fields through `gtxn i`, i being its configured absolute index
+        i = rng.choice([0, 1, 2, 3])
+        c = fragment.generate(rng, PROFILE)
+        prog = guard_prefix(rng, ("abs", i), dets) + c["prog"]
+        contracts = {"selfA": (prog, max(c["version"], T.min_version(prog)), "LogicSig")}
+        a = {"id": "TB", "type": "txn", "lsig": "selfA", "app": None, "has_lsig": True, "abs": i, "rel": {}}
+        return {"contracts": contracts, "txns": [a], "guard": {"mode": "match", "dets": dets, "access": ("own-abs", i)}}
+    access = ("rel", rng.choice([1, 2, 3, -1, -2])) if rng.random() < 0.6 else ("abs", rng.choice([0, 1, 2, 3]))
+    c = fragment.generate(rng, PROFILE)
+    progA = guard_prefix(rng, access, dets) + c["prog"]
+    kindA = rng.choice(["LogicSig", "ApprovalProgram"])
+    contracts = {"guardA": (progA, max(c["version"], T.min_version(progA)), kindA)}
+    a = {"id": "TA", "type": "appl" if kindA == "ApprovalProgram" else "txn", "lsig": "guardA" if kindA == "LogicSig" else None,
+         "app": "guardA" if kindA == "ApprovalProgram" else None, "has_lsig": kindA == "LogicSig", "abs": None, "rel": {}}
+    b = {"id": "TB", "type": rng.choice(["txn", "pay", "axfer"]), "lsig": None, "app": None, "has_lsig": True, "abs": None, "rel": {}}
+    if rng.random() < 0.5:
+        cb = fragment.generate(rng, PROFILE)
+        contracts["lsigB"] = (cb["prog"], cb["version"], "LogicSig")
+        b["lsig"] = "lsigB"
+    mode = rng.choice(["match", "match", "mirror", "other"])
+    if access[0] == "rel":
+        k = access[1]
+        a["rel"]["TB"] = {"match": k, "mirror": -k, "other": k + (1 if k > 0 else -1)}[mode]
+    else:
+        i = access[1]
+        b["abs"] = {"match": i, "mirror": i + 1, "other": (i + 2) % 4}[mode]
+        if rng.random() < 0.5:
+            a["abs"] = (b["abs"] + 1 + rng.randint(0, 1)) % 5 if (b["abs"] + 1) % 5 != b["abs"] else None
+            if a["abs"] == b["abs"]:
+                a["abs"] = None
+    cfg = {"contracts": contracts, "txns": [a, b], "guard": {"mode": mode, "dets": dets, "access": access}}
+    return cfg
+
+
 def gen_config(rng):
+    if rng.random() < 0.4:
+        return gen_guarded_config(rng)
+    return gen_random_config(rng)
+
+
+def gen_random_config(rng):
     """Returns dict(contracts={name: (prog, version, kind)}, txns=[...]) - an abstract configuration."""
     n = rng.choice([1, 1, 2, 2, 3])
     contracts = {}
@@ -323,6 +394,20 @@ def check_config(cfg, rng, ctr):
                                       "what": "%s clears transaction %s although the group %s (positions %s) is approved by every configured contract while %s carries the dangerous value" % (
                                           det, t["id"], witness[2], witness[1], t["id"]),
                                       "config": {"txns": cfg["txns"]}})
+        # cleared by the statement: another member's contract starts with an unconditional check of this very
+        # transaction's field through the configured offset / absolute index
+        g = cfg.get("guard")
+        if g and g["mode"] == "match":
+            tb = [t for t in cfg["txns"] if t["id"] == "TB"][0]
+            for det in g["dets"]:
+                if not eligible(det, tb):
+                    continue
+                ctr["cleared_by_statement_checks"] += 1
+                if "TB" in reported[det]:
+                    viols.append({"kind": "cleared-by-statement-but-reported", "key": det,
+                                  "what": "%s reports TB although TA's contract asserts the safe value of that field for the member at %s, "
+                                          "which is where the configuration puts TB" % (det, g["access"]),
+                                  "config": {"txns": cfg["txns"]}})
         # degenerate: one transaction, one contract -> single-contract verdict
         if len(cfg["txns"]) == 1 and (cfg["txns"][0]["lsig"] or cfg["txns"][0]["app"]) and not (cfg["txns"][0]["lsig"] and cfg["txns"][0]["app"]):
             t = cfg["txns"][0]
